@@ -48,6 +48,12 @@
 (* about that feature, so both readings are admitted (Admitted).            *)
 (*   run_closes_any   broken: the default closing date is applied to every  *)
 (*                    statement that has a FROM clause -- PRINT included    *)
+(* CLAUSE COMBINATIONS.  "after OPEN / CLOSE / CLEAR": a FROM clause with   *)
+(* several clauses means their application one after the other, in that     *)
+(* order; the version Summ(ledger, clauses) is the ledger with the chain of  *)
+(* single clauses applied to it.                                            *)
+(*   fused_period     broken: OPEN ON d CLOSE ON e is computed by a routine  *)
+(*                    of its own instead of OPEN, then CLOSE                *)
 (***************************************************************************)
 EXTENDS MC_Statements, Json
 
@@ -82,8 +88,18 @@ TableNames == {"entries", "postings"}
 \* the clauses a statement asks for: those of its FROM clause; none when it has no FROM clause
 OwnClauses(s) == IF s.from.present THEN Clauses(s.from) ELSE NoClauses
 
-\* the entry list of ledger c after the clauses cl (uninterpreted: C13 judges the summarisation)
-Summ(c, cl) == [ledger |-> c, cl |-> cl]
+\* the entry list of ledger c after the clauses cl.  What one clause does to a ledger is uninterpreted (C13 judges the
+\* summarisation); a combination of clauses is their application one after the other, OPEN then CLOSE then CLEAR
+\* (Statements!ClauseChain): the version is the ledger and the sequence of single clauses applied to it.
+Summ(c, cl) == [ledger |-> c, applied |-> ClauseChain(cl)]
+\* BeanTable.prepare() on a table object carrying the clauses cl.  As shipped: open(), then close(), then clear().
+\*   fused_period   broken: a clause pair OPEN ON d CLOSE ON e is computed in one pass by a routine of its own (a "clamp"
+\*                  to the period) -- not the entry list after OPEN, closed
+Prepare(c, cl) ==
+    IF Mech = "fused_period" /\ cl.open # <<>> /\ cl.close.k = "on"
+    THEN [ledger |-> c, applied |-> <<[open |-> cl.open, close |-> cl.close, clear |-> FALSE]>>
+                                    \o (IF cl.clear THEN <<[open |-> <<>>, close |-> NoClose, clear |-> TRUE]>> ELSE <<>>)]
+    ELSE Summ(c, cl)
 
 -----------------------------------------------------------------------------
 VARIABLES
@@ -143,7 +159,7 @@ SExecute ==
     /\ LET st == steps[Len(steps)]
            c == st.c
            t == TableOf(SessionShapes[st.s])
-           fresh == Summ(c, cur.cl)
+           fresh == Prepare(c, cur.cl)
            v == CASE Mech = "memo_on_object" -> IF cur.memo # <<>> THEN cur.memo[1] ELSE fresh
                   [] Mech = "memo_on_class" -> IF classmemo[t] # <<>> THEN classmemo[t][1] ELSE fresh
                   [] OTHER -> fresh
@@ -186,9 +202,13 @@ AdmittedSeq(st) ==
         rest == SetToSeq(AdmittedClauses(st) \ {own})
         cls == <<own>> \o rest
     IN [j \in DOMAIN cls |-> [ledger |-> st.c, cl |-> cls[j], stmt |-> StmtTokens(WithClauses(s, cls[j]))]]
+\* composition: a statement whose FROM clause carries several clauses returns what the statement with the LAST of them
+\* only returns on the ledger that the clauses before it give (chain: the single clauses, in the order of application)
+LastOnly(s) == LET ch == ClauseChain(s.from) IN IF Len(ch) < 2 THEN s ELSE WithClauses(s, ch[Len(ch)])
 SessShapeInfo(s) == [kind |-> s.kind, f |-> s.f, from |-> s.from, where |-> s.where, acct |-> s.acct, short |-> StmtTokens(s),
                      expanded |-> IF s.kind = "print" THEN <<>> ELSE SelectTokens(Expand(s)),
-                     clauses |-> HasClauses(s.from), own |-> OwnClauses(s)]
+                     clauses |-> HasClauses(s.from), own |-> OwnClauses(s),
+                     chain |-> ClauseChain(s.from), last |-> StmtTokens(LastOnly(s))]
 QueryName(n) == "s" \o ToString(n)
 EmitSession ==
     IF steps = <<>> /\ spc = "idle"
